@@ -503,7 +503,8 @@ fn readonly() -> i32 {
                 let before = snap(&dir);
                 {
                     let db = abyssiniandb::open_file(&dir).unwrap();
-                    let mut m = db.db_map_string_with_params("m", params.clone()).unwrap();
+                    let ro_params = if del % 2 == 1 { FileDbParams { key_buf_size: FileBufSizeParam::Size(384 * 1024), val_buf_size: FileBufSizeParam::Size(300_000), htx_buf_size: FileBufSizeParam::Size(1024 * 1024), ..params.clone() } } else { params.clone() };
+                    let mut m = db.db_map_string_with_params("m", ro_params).unwrap();
                     for i in 0..(fill + 30) { let _ = m.get(&format!("k{i}")).unwrap(); let _ = m.includes_key(&format!("absent{i}")).unwrap(); }
                     let _ = m.len().unwrap(); let _ = m.is_empty().unwrap();
                     let _: Vec<_> = m.iter().collect(); let _: Vec<_> = m.keys().collect(); let _: Vec<_> = m.values().collect();
@@ -512,7 +513,9 @@ fn readonly() -> i32 {
                     let _ = m.htx_filling_rate_per_mill().unwrap();
                     let _ = m.key_piece_size_stats().unwrap(); let _ = m.value_piece_size_stats().unwrap();
                     let _ = m.key_length_stats().unwrap(); let _ = m.value_length_stats().unwrap();
+                    { let _it = m.iter(); let _k = m.keys(); let _v = m.values(); }      // created, never advanced
                     m.read_fill_buffer().unwrap(); m.flush().unwrap(); m.sync_data().unwrap(); m.sync_all().unwrap();
+                    m.read_fill_buffer().unwrap(); m.flush().unwrap(); let _ = m.len().unwrap(); let _ = m.is_empty().unwrap(); m.sync_all().unwrap();
                 }
                 if snap(&dir) != before { return Err(format!("table of {n} buckets, {fill} entries, delete pattern {del}: files differ after a read-only session")); }
             }
@@ -610,6 +613,7 @@ fn stats() -> i32 {
             buckets.insert(abyssiniandb::DbString::from("").hash_value() % nb);
             let (cnt, _pm) = m.htx_filling_rate_per_mill().unwrap();
             if cnt != buckets.len() as u64 { return Err(format!("{nb} buckets: filling figure {cnt}, non-empty buckets {}", buckets.len())); }
+            if _pm as u64 != cnt * 1000 / nb { return Err(format!("{nb} buckets: per-mill figure {_pm} for {cnt} non-empty buckets")); }
             for (name, txt, want) in [("key_length_stats", m.key_length_stats().unwrap().to_string(), 30u64), ("value_length_stats", m.value_length_stats().unwrap().to_string(), 30),
                                       ("key_piece_size_stats", m.key_piece_size_stats().unwrap().to_string(), 30), ("value_piece_size_stats", m.value_piece_size_stats().unwrap().to_string(), 30)] {
                 let total: u64 = parse_pairs(&txt).iter().map(|x| x.1).sum();
@@ -621,6 +625,22 @@ fn stats() -> i32 {
             let mut want: Vec<(u64, u64)> = Vec::new();
             for l in [5u64, 25, 45, 65] { let c = (10..40).filter(|i| 5 + (i % 4) * 20 == l).count() as u64; want.push((l, c)); }
             if vl != want { return Err(format!("{nb} buckets: value_length_stats {vl:?}, expected {want:?}")); }
+        }
+        // key side and value side are different files: uniform 3-byte keys with 200-byte values -> 16-byte key slots, 256-byte value slots
+        {
+            let _ = std::fs::remove_dir_all(&dir);
+            let params = FileDbParams { buckets_size: HashBucketsParam::BucketsSize(16), ..Default::default() };
+            let db = abyssiniandb::open_file(&dir).unwrap();
+            let mut m = db.db_map_string_with_params("u", params).unwrap();
+            for i in 0..12 { m.put(&format!("k{i:02}"), &vec![9u8; 200]).unwrap(); }
+            for i in 0..5 { m.delete(&format!("k{i:02}")).unwrap(); }
+            let ks = parse_pairs(&m.key_piece_size_stats().unwrap().to_string()); let vs = parse_pairs(&m.value_piece_size_stats().unwrap().to_string());
+            if ks != vec![(16, 7)] || vs != vec![(256, 7)] { return Err(format!("uniform map: key_piece_size_stats {ks:?} (expected [(16, 7)]), value_piece_size_stats {vs:?} (expected [(256, 7)])")); }
+            let kl = parse_pairs(&m.key_length_stats().unwrap().to_string()); let vl = parse_pairs(&m.value_length_stats().unwrap().to_string());
+            if kl != vec![(3, 7)] || vl != vec![(200, 7)] { return Err(format!("uniform map: key_length_stats {kl:?}, value_length_stats {vl:?}")); }
+            let fk: Vec<(u32, u64)> = m.count_of_free_key_piece().unwrap().into_iter().filter(|x| x.1 > 0).collect();
+            let fv: Vec<(u32, u64)> = m.count_of_free_value_piece().unwrap().into_iter().filter(|x| x.1 > 0).collect();
+            if fk != vec![(16, 5)] || fv != vec![(256, 5)] { return Err(format!("uniform map: free key slots {fk:?} (expected [(16, 5)]), free value slots {fv:?} (expected [(256, 5)])")); }
         }
         // histograms when sizes arrive in non-monotonic order (new smallest / new largest / between / repeated), key side != value side
         {
@@ -670,7 +690,7 @@ fn bulk() -> i32 {
     let dir = tmpdir("bulk");
     let res = std::panic::catch_unwind(std::panic::AssertUnwindSafe(|| -> Result<(), String> {
         let params = FileDbParams { buckets_size: HashBucketsParam::BucketsSize(8), ..Default::default() };
-        let names = ["a1", "b2", "c3", "absent", "e5"];
+        let names = ["k", "k1", "k12", "absent", "k123"];     // keys that are prefixes of each other, one of them absent
         let fill = |m: &mut abyssiniandb::filedb::FileDbMapDbString| { for (i, k) in names.iter().enumerate() { if *k != "absent" { m.put_string(*k, &format!("value-{i}")).unwrap(); } } };
         for n in [3usize, 4, 5] {
             for p in perms(n) {
